@@ -113,4 +113,92 @@ def _unfold_locoff(t):
 
 
 from pyvc.verify import register_recdef
-register_recdef('loc_off', _unfold_locoff)
+register_recdef('loc_off', _unfold_locoff, forward=True)
+
+
+def _hdr(name, field):
+    return z3.Function('%s.%s' % (name, field), ArrS, IntS, IntS)
+
+
+_blockoff = {}
+
+
+def _block_fn(name):
+    if name not in _blockoff:
+        f = z3.Function('block_off!' + name, ArrS, IntS, IntS)
+        _blockoff[name] = f
+
+        def unfold(t, f=f, name=name):
+            arr, k = t.arg(0), t.arg(1)
+            prev = f(arr, k - 1)
+            return [f(arr, 0) == 0,
+                    z3.Implies(k >= 1, t == _hdr(name, 'offset_after_length')(arr, prev) + _hdr(name, 'unit_length')(arr, prev))]
+        register_recdef('block_off!' + name, unfold)
+    return _blockoff[name]
+
+
+@_native
+def block_off(I, B, parser, k):
+    """offset of the k-th unit block of a v5 list section: the next block starts where the unit
+    length of this one ends (7.28 / 7.29)"""
+    return _block_fn(parser.name)(B.arr, to_int(k))
+
+
+_lstoff = z3.Function('lst_off', ArrS, IntS, IntS, IntS)
+
+
+@_native
+def lst_off(I, B, first, k):
+    """offset of the k-th range list of a unit block whose lists start at `first`: lists are adjacent,
+    each ends after its end-of-list entry"""
+    return _lstoff(B.arr, to_int(first), to_int(k))
+
+
+def _unfold_lstoff(t):
+    arr, first, k = t.arg(0), t.arg(1), t.arg(2)
+    prev = _lstoff(arr, first, k - 1)
+    end = z3.Function('end!Dwarf_rnglists_entries', ArrS, IntS, IntS)
+    return [_lstoff(arr, first, 0) == first, z3.Implies(k >= 1, t == end(arr, prev))]
+
+
+register_recdef('lst_off', _unfold_lstoff, forward=True)
+
+_pairoff = z3.Function('view_off', ArrS, IntS, IntS, IntS)
+
+
+@_native
+def view_off(I, B, first, k):
+    """offset of the k-th location view pair from `first`: each pair is two ULEB128 numbers"""
+    return _pairoff(B.arr, to_int(first), to_int(k))
+
+
+def _unfold_pairoff(t):
+    arr, first, k = t.arg(0), t.arg(1), t.arg(2)
+    prev = _pairoff(arr, first, k - 1)
+    end = z3.Function('leb.end', ArrS, IntS, IntS)
+    return [_pairoff(arr, first, 0) == first, z3.Implies(k >= 1, t == end(arr, end(arr, prev)))]
+
+
+register_recdef('view_off', _unfold_pairoff, forward=True)
+
+
+@_native
+def uleb_at(I, B, p):
+    return z3.Function('leb.u.val', ArrS, IntS, IntS)(B.arr, to_int(p))
+
+
+@_native
+def uleb_end(I, B, p):
+    return z3.Function('leb.end', ArrS, IntS, IntS)(B.arr, to_int(p))
+
+
+@_native
+def hdr_field(I, B, parser, field, p):
+    """field of the unit block header at p (leaf of the K1 layout; K2 ties it to the bytes)"""
+    return _hdr(parser.name, field)(B.arr, to_int(p))
+
+
+LOCLIST_ATTRS = ('DW_AT_location', 'DW_AT_string_length', 'DW_AT_return_addr', 'DW_AT_data_member_location',
+                 'DW_AT_frame_base', 'DW_AT_segment', 'DW_AT_static_link', 'DW_AT_use_location',
+                 'DW_AT_vtable_elem_location')      # DWARF v5 table 7.5: attributes of class exprloc + loclist
+BLOCK_FORMS = ('DW_FORM_block', 'DW_FORM_block1', 'DW_FORM_block2', 'DW_FORM_block4')
